@@ -67,6 +67,16 @@ Proof.
   intros H. pose proof (instr_stay c10_lex_sw _ (keychars_instr _ H)) as Hs. unfold sw_show_name. destruct esc; [|exact Hs].
   intros st. walk. reflexivity.
 Qed.
+(* swift_keyword_aware_rename of a neutral token (the tag / content key of an algebraic enum, swift.rs:490 / :591): a
+   keyword is made of letters, so its back-ticked form is neutral too *)
+Lemma sw_keywords_keychars : forallb keychars SWIFT_KEYWORDS = true.
+Proof. vm_compute. reflexivity. Qed.
+Lemma sw_keyword_aware_bal k : c10_tok_ok k = true -> bal c10_lex_sw (swift_keyword_aware_rename k).
+Proof.
+  intros H. unfold swift_keyword_aware_rename. destruct (sw_is_keyword k) eqn:Ek; [|apply tok_bal, H].
+  apply sw_show_name_bal. unfold sw_is_keyword, mem_str in Ek. apply existsb_exists in Ek as [y [Hy E]].
+  apply str_eqb_eq in E. subst y. pose proof sw_keywords_keychars as Hk. rewrite forallb_forall in Hk. apply Hk, Hy.
+Qed.
 (* a printed type, back-ticked when the decision layer found it to be a keyword *)
 Definition c10_sw_case_type_ok (ty : texp) (esc : bool) : bool :=
   c10_texp_ok c10_lex_sw ty && implb esc (c10_intick_ok (sw_show ty)).
@@ -203,9 +213,9 @@ Proof.
   apply andb_true_iff in Hr as [Hw1 Hw2]. pose proof (instr_q1 c10_lex_sw w (nonnil_ne _ Hw1) Hw2) as H3. intros st. walk. reflexivity.
 Qed.
 
-Lemma sw_render_decoding_bal content v : c10_tok_ok content = true -> c10_sw_variant_ok v = true -> bal c10_lex_sw (sw_render_decoding content v).
+Lemma sw_render_decoding_bal content v : bal c10_lex_sw content -> c10_sw_variant_ok v = true -> bal c10_lex_sw (sw_render_decoding content v).
 Proof.
-  intros Hc H. pose proof (tok_bal c10_lex_sw _ Hc) as H0.
+  intros H0 H.
   unfold c10_sw_variant_ok in H. rewrite !andb_true_iff in H. destruct H as [[[_ Hn] _] Hp].
   pose proof (tok_bal c10_lex_sw _ (keychars_tok _ Hn)) as H1.
   unfold sw_render_decoding, sw_line. destruct (swv_payload v) as [|ty esc opt|name gs].
@@ -215,10 +225,10 @@ Proof.
     pose proof (tok_bal c10_lex_sw _ (generics_suffix_tok _ Hg)) as H4. intros st. walk. reflexivity.
 Qed.
 
-Lemma sw_render_encoding_bal tag content v : c10_tok_ok tag = true -> c10_tok_ok content = true -> c10_sw_variant_ok v = true ->
+Lemma sw_render_encoding_bal tag content v : bal c10_lex_sw tag -> bal c10_lex_sw content -> c10_sw_variant_ok v = true ->
   bal c10_lex_sw (sw_render_encoding tag content v).
 Proof.
-  intros Ht Hc H. pose proof (tok_bal c10_lex_sw _ Ht) as G0. pose proof (tok_bal c10_lex_sw _ Hc) as H0.
+  intros G0 H0 H.
   pose proof (sw_variant_ident_bal v H) as H2.
   unfold c10_sw_variant_ok in H. rewrite !andb_true_iff in H. destruct H as [[[_ Hn] _] Hp].
   pose proof (tok_bal c10_lex_sw _ (keychars_tok _ Hn)) as H1.
@@ -235,19 +245,20 @@ Proof.
   { apply tr_flat_map. apply forallb_Forall in Hin. revert Hin. apply Forall_impl. intros s. apply sw_render_struct_bal. }
   apply forallb_Forall in Hv.
   unfold sw_render_enum, sw_line. cbv zeta. destruct (swe_tagged e) as [[tag content]|].
-  - apply andb_true_iff in Htag as [Htg Hct]. pose proof (tok_bal c10_lex_sw _ Htg) as G1. pose proof (tok_bal c10_lex_sw _ Hct) as G2.
+  - apply andb_true_iff in Htag as [Htg Hct]. pose proof (sw_keyword_aware_bal _ Htg) as G1. pose proof (sw_keyword_aware_bal _ Hct) as G2.
+    set (tagk := swift_keyword_aware_rename tag) in *. set (contentk := swift_keyword_aware_rename content) in *.
     assert (F1 : bal c10_lex_sw (flat_map sw_render_case (swe_variants e))).
     { apply tr_flat_map. revert Hv. apply Forall_impl. intros v. apply sw_render_case_bal. }
     set (K := match swe_variants e with [] => [] | _ => sw_render_coding_keys_block (map sw_render_coding_key (swe_variants e)) end).
     assert (F2 : bal c10_lex_sw K).
     { subst K. destruct (swe_variants e) as [|v0 vr] eqn:Ev; [apply tr_nil|]. apply sw_coding_keys_block_bal. apply Forall_map.
       revert Hv. apply Forall_impl. intros v. apply sw_render_coding_key_bal. }
-    assert (F3 : bal c10_lex_sw (flat_map (sw_render_decoding content) (swe_variants e))).
-    { apply tr_flat_map. revert Hv. apply Forall_impl. intros v. apply sw_render_decoding_bal, Hct. }
-    assert (F4 : bal c10_lex_sw (flat_map (sw_render_encoding tag content) (swe_variants e))).
+    assert (F3 : bal c10_lex_sw (flat_map (sw_render_decoding contentk) (swe_variants e))).
+    { apply tr_flat_map. revert Hv. apply Forall_impl. intros v. apply sw_render_decoding_bal, G2. }
+    assert (F4 : bal c10_lex_sw (flat_map (sw_render_encoding tagk contentk) (swe_variants e))).
     { apply tr_flat_map. revert Hv. apply Forall_impl. intros v. apply sw_render_encoding_bal; assumption. }
     intros st. set (S := flat_map sw_render_struct _) in *. set (C := flat_map sw_render_case _) in *.
-    set (D := flat_map (sw_render_decoding content) _) in *. set (E := flat_map (sw_render_encoding tag content) _) in *.
+    set (D := flat_map (sw_render_decoding contentk) _) in *. set (E := flat_map (sw_render_encoding tagk contentk) _) in *.
     set (DE := join _ (swe_decs e)) in *. set (NM := sw_show_name _ _) in *.
     destruct (swe_indirect e); walk; reflexivity.
   - assert (F1 : bal c10_lex_sw (flat_map sw_render_unit_case (swe_variants e))).
